@@ -137,11 +137,12 @@ fn eval_text(kind: &str, ty: &str, arg: &str) -> Out {
 
 pub fn eval(case: &str) -> Out {
     let w: Vec<&str> = case.split(' ').collect();
-    if w.len() < 4 { return Out::ok("harnesserr args".into()); }
+    if w.len() < 3 { return Out::ok("harnesserr args".into()); }
     match w[1] {
         "tp" | "tr" if w.len() == 4 => eval_text(w[1], w[2], w[3]),
         "sd" if w.len() == 6 => eval_serde(w[2], w[5]),
         "lj" if w.len() == 4 => eval_locktime_json(w[2], w[3]),
+        "dm" if w.len() == 3 => eval_probe(w[2]),
         _ => Out::ok("harnesserr kind".into()),
     }
 }
@@ -221,6 +222,66 @@ fn eval_serde(ty: &str, arg: &str) -> Out {
         "hash:ElidedRoot" => hash_serde!(arg, ElidedRoot, 32),
         "hash:DynafedRoot" => hash_serde!(arg, elements::DynafedRoot, 32),
         _ => Out::ok("harnesserr type".into()),
+    }
+}
+/// hand-made JSON trees no Serialize impl produces (the same trees are defined as `sval`s in coq/Extract/RunC20.v, which renders them to
+/// exactly these texts; both sides print the text, so a drift between the two tables is a correspondence failure)
+pub const PROBES: [(&str, &str, &str); 37] = [
+    ("params-partial", "params", r#"{"signblockscript":"51"}"#),
+    ("params-full-and-elided", "params", r#"{"elided_root":"0000000000000000000000000000000000000000000000000000000000000001","signblockscript":"51","signblock_witness_limit":7,"fedpeg_program":"0014","fedpegscript":[1,255],"extension_space":["AbCd",[]]}"#),
+    ("params-compact-unknown-key", "params", r#"{"foo":[null,{}],"signblockscript":"","signblock_witness_limit":4294967295,"elided_root":"ff00000000000000000000000000000000000000000000000000000000000000"}"#),
+    ("params-bad-limit", "params", r#"{"signblockscript":"51","signblock_witness_limit":"7"}"#),
+    ("params-limit-overflow", "params", r#"{"signblock_witness_limit":4294967296}"#),
+    ("params-fedpegscript-bad-byte", "params", r#"{"fedpegscript":[256]}"#),
+    ("params-array", "params", r#"[]"#),
+    ("value-trailing", "value", r#"[0,0]"#),
+    ("value-explicit-missing", "value", r#"[1]"#),
+    ("value-explicit-trailing", "value", r#"[1,5,6]"#),
+    ("value-bad-tag", "value", r#"[3]"#),
+    ("value-tag-256", "value", r#"[256]"#),
+    ("value-tag-string", "value", r#"["0"]"#),
+    ("value-empty", "value", r#"[]"#),
+    ("value-u64-max", "value", r#"[1,18446744073709551615]"#),
+    ("value-u64-overflow", "value", r#"[1,18446744073709551616]"#),
+    ("value-conf-badhex", "value", r#"[2,"zz"]"#),
+    ("value-map", "value", r#"{}"#),
+    ("txout-dup-first-invalid", "txout", r#"{"asset":[0],"value":[7],"value":[0],"nonce":[0],"script_pubkey":"","witness":{"surjection_proof":null,"rangeproof":null}}"#),
+    ("txout-dup-last-wins", "txout", r#"{"asset":[0],"value":[1,0],"value":[0],"nonce":[0],"script_pubkey":"AB","witness":{"surjection_proof":null,"rangeproof":null},"extra":null}"#),
+    ("txout-missing-nonce", "txout", r#"{"asset":[0],"value":[0],"script_pubkey":"","witness":{"surjection_proof":null,"rangeproof":null}}"#),
+    ("txout-as-array", "txout", r#"[[0],[0],[0],"",{"surjection_proof":null,"rangeproof":null}]"#),
+    ("txout-odd-hex-script", "txout", r#"{"asset":[0],"value":[0],"nonce":[0],"script_pubkey":"5","witness":{"surjection_proof":null,"rangeproof":null}}"#),
+    ("txout-nonce-31", "txout", r#"{"asset":[0],"value":[0],"nonce":[1,[9,9,9,9,9,9,9,9,9,9,9,9,9,9,9,9,9,9,9,9,9,9,9,9,9,9,9,9,9,9,9]],"script_pubkey":"","witness":{"surjection_proof":null,"rangeproof":null}}"#),
+    ("txout-nonce-33", "txout", r#"{"asset":[0],"value":[0],"nonce":[1,[9,9,9,9,9,9,9,9,9,9,9,9,9,9,9,9,9,9,9,9,9,9,9,9,9,9,9,9,9,9,9,9,9]],"script_pubkey":"","witness":{"surjection_proof":null,"rangeproof":null}}"#),
+    ("txout-nonce-32", "txout", r#"{"asset":[0],"value":[0],"nonce":[1,[9,9,9,9,9,9,9,9,9,9,9,9,9,9,9,9,9,9,9,9,9,9,9,9,9,9,9,9,9,9,9,9]],"script_pubkey":"","witness":{"surjection_proof":null,"rangeproof":null}}"#),
+    ("extdata-challenge-only", "extdata", r#"{"challenge":"51"}"#),
+    ("extdata-solution-only", "extdata", r#"{"solution":"51"}"#),
+    ("extdata-both-kinds", "extdata", r#"{"current":{},"proposed":{},"signblock_witness":[],"challenge":"51","solution":""}"#),
+    ("extdata-dynafed-partial-params", "extdata", r#"{"current":{"signblockscript":"51"},"proposed":{},"signblock_witness":[[1],[]]}"#),
+    ("extdata-empty", "extdata", r#"{}"#),
+    ("secrets-dup", "secrets", r#"{"value":1,"value":1}"#),
+    ("locktime-two-entries", "locktime", r#"{"Blocks":1,"Seconds":2}"#),
+    ("locktime-lowercase", "locktime", r#"{"blocks":1}"#),
+    ("locktime-number", "locktime", r#"1"#),
+    ("outpoint-no-prefix", "outpoint", r#""0100000000000000000000000000000000000000000000000000000000000000:7""#),
+    ("outpoint-as-map", "outpoint", r#"{"txid":"0100000000000000000000000000000000000000000000000000000000000000","vout":7}"#),
+];
+fn probe<T: serde::Serialize + serde::de::DeserializeOwned>(json: &str) -> Out {
+    match serde_json::from_str::<T>(json) {
+        Ok(v) => Out::ok(format!("{} ok {}", json, serde_json::to_string(&v).unwrap_or_else(|_| "serr".into()))),
+        Err(_) => Out::ok(format!("{} err", json)),
+    }
+}
+fn eval_probe(name: &str) -> Out {
+    let (_, ty, json) = match PROBES.iter().find(|p| p.0 == name) { Some(p) => *p, None => return Out::ok("harnesserr probe".into()) };
+    match ty {
+        "params" => probe::<elements::dynafed::Params>(json),
+        "value" => probe::<elements::confidential::Value>(json),
+        "txout" => probe::<elements::TxOut>(json),
+        "extdata" => probe::<elements::BlockExtData>(json),
+        "secrets" => probe::<elements::TxOutSecrets>(json),
+        "locktime" => probe::<LockTime>(json),
+        "outpoint" => probe::<OutPoint>(json),
+        _ => Out::ok("harnesserr probe type".into()),
     }
 }
 /// `C20 lj <Variant> <n>`: a LockTime obtained from the JSON {"<Variant>": n} (the derived Deserialize), then Display -> FromStr
@@ -317,6 +378,7 @@ fn gen_serde(rng: &mut ChaCha20Rng, n: usize, thorough: bool, out: &mut Vec<Case
                          ("Seconds", 500_000_000), ("Seconds", 4294967295), ("Height", 5)] {
         out.push(Case { text: format!("C20 lj {} {}", variant, n), tags: vec!["serde:locktime-json".into()], nontrivial: n != 0 });
     }
+    for p in PROBES.iter() { out.push(Case { text: format!("C20 dm {}", p.0), tags: vec!["serde:malformed-tree".into(), format!("probe:{}", p.1)], nontrivial: true }); }
     // types whose serde form is their Display string
     for s in ["SIGHASH_ALL", "SIGHASH_NONE|SIGHASH_ANYONECANPAY", "SIGHASH_DEFAULT", "SIGHASH_RESERVED", "0xff", "0x4"] { sd("str", None, shex(s), vec!["serde:string-form".into()], true, out); }
     for _ in 0..m {
